@@ -422,22 +422,51 @@ def make_source(ml, rng, kname, n=None, rich=False):
     return o
 
 
+DESIGNATORS = ["atom", "index", "negindex", "label", "element"]
+
+
 def make_joinable(ml, rng, kname):
-    """A structure with one attachment point bonded to exactly one atom, non-degenerate geometry."""
-    from molli.chem import Atom, Bond, AtomType
-    while True:
-        o = make_source(ml, rng, kname, n=rng.randrange(2, 5))
-        if all(a.atype != AtomType.AttachmentPoint for a in o.atoms):
-            break
-    j = rng.randrange(o.n_atoms)
-    ap = Atom("Unknown", atype=AtomType.AttachmentPoint, label="AP")
-    c = o.coords[j] + [1.0, 0.25 * (1 + rng.randrange(3)), -0.5]
-    if kname == "Molecule":
-        o.add_atom(ap, c, 0.375)
-    else:
-        o.add_atom(ap, c)
-    o.append_bond(Bond(o.atoms[j], ap))
+    """A structure with one attachment point -- at a RANDOM position of the atom list -- bonded to exactly one
+    atom; non-degenerate geometry; pairwise distinct partial charges.  The attachment point is the only atom
+    with its label and its element, and its element's integer value is a valid atom index different from
+    its position (Element is an IntEnum: a designator confusion must be visible)."""
+    from molli.chem import Atom, Bond, AtomType, AtomStereo, AtomGeom, BondType, BondStereo, Element
+    n = rng.randrange(2, 5)
+    k = rng.randrange(n + 1)
+    ap_el = rng.choice([e for e in ("Unknown", "He", "Li") if Element[e].value < n + 1 and Element[e].value != k])
+    ap = Atom(ap_el, atype=AtomType.AttachmentPoint, label="AP")
+    ap.attrib["ap"] = 1
+    real = []
+    for i in range(n):
+        a = Atom(rng.choice(ELEMS), isotope=rng.choice([None, 13]), label=f"R{i}",
+                 atype=rng.choice([t for t in AtomType if t != AtomType.AttachmentPoint]), stereo=rng.choice(list(AtomStereo)),
+                 geom=rng.choice(list(AtomGeom)), formal_charge=rng.choice([0, 1, -1]))
+        a.attrib[f"k{i}"] = rng.choice([1, "v", 2.5])
+        real.append(a)
+    atoms = real[:k] + [ap] + real[k:]
+    o = ctor(ml, kname)(name=rng.choice(["fragA", "fragB"]), charge=rng.choice([None, 1]))
+    sgn = rng.choice([1, -1])
+    for i, a in enumerate(atoms):
+        c = [1.25 * i + rnd_float(rng) * 0.125, 0.5 * i * i - 0.375 * i, (-1) ** i * 0.75 + 0.0625 * i * i * i]
+        if kname == "Molecule":
+            o.add_atom(a, c, sgn * 0.0625 * (i + 1) + 0.001953125 * rng.randrange(8))
+        else:
+            o.add_atom(a, c)
+    pairs = [(x, y) for x in range(n) for y in range(x + 1, n)]
+    rng.shuffle(pairs)
+    for x, y in pairs[: rng.randrange(1, len(pairs) + 1)]:
+        b = Bond(real[x], real[y], btype=rng.choice(list(BondType)), stereo=rng.choice(list(BondStereo)), f_order=rng.choice([1.0, 1.5]))
+        b.attrib["q"] = rng.choice([7, "w"])
+        o.append_bond(b)
+    o.append_bond(Bond(real[rng.randrange(n)], ap))
+    o.attrib["frag"] = k
     return o, ap
+
+
+def designate(s, ap, kind):
+    """The attachment point in one of the AtomLike forms the API accepts."""
+    i = next(k for k, a in enumerate(s.atoms) if a is ap)
+    return {"atom": ap, "index": i, "negindex": i - s.n_atoms, "label": ap.label, "element": ap.element}[kind]
 
 
 # ------------------------------------------------------------------ routes
@@ -508,7 +537,7 @@ def apply_single(ml, src, route):
     return Unit(src, thr), Unit(res, thr)
 
 
-def apply_multi(ml, rng, kname, route, pre=lambda units, v: None):
+def apply_multi(ml, rng, kname, route, pre=lambda units, v: None, desig=None):
     """Derived molecules. Returns (list of source units, VSrc, result unit); `pre` is called with the
     sources and their union object before the route runs."""
     import numpy as np
@@ -537,7 +566,9 @@ def apply_multi(ml, rng, kname, route, pre=lambda units, v: None):
         v.new_bond_payload = [leaf_key(getattr(probe, f)) for f in BOND_FIELDS]
         units = [Unit(s1), Unit(s2)]
         pre(units, v)
-        res = cls.join(s1, s2, ap1, ap2)
+        d1, d2 = desig if desig else (rng.choice(DESIGNATORS), rng.choice(DESIGNATORS))
+        v.frags = [(s1, ap1), (s2, ap2)]
+        res = cls.join(s1, s2, designate(s1, ap1, d1), designate(s2, ap2, d2), optimize_rotation=rng.random() < 0.3)
         return units, v, Unit(res)
     if route[0] == "ensfromlist":
         if kname == "Conformer":
@@ -960,7 +991,7 @@ class CaseOut:
         self.key = None
 
 
-def run_case(ml, rng, kname, route, mut_side, want_mut=None, emit=True):
+def run_case(ml, rng, kname, route, mut_side, want_mut=None, emit=True, desig=None):
     """Drives one (source class, route, mutation) triple through the real code.
     Returns CaseOut with the Coq term (if emit) and the oracle's verdicts."""
     out = CaseOut()
@@ -980,7 +1011,7 @@ def run_case(ml, rng, kname, route, mut_side, want_mut=None, emit=True):
             st["root"] = encode_union(enc, v) if v is not None else enc.loc[("o", id(units[0].read), units[0].kname)]
             st["h0"] = enc.read_all()
     if multi:
-        srcus, v, resu = apply_multi(ml, rng, kname, route, pre)
+        srcus, v, resu = apply_multi(ml, rng, kname, route, pre, desig)
     else:
         src = make_source(ml, rng, kname)
         pre([Unit(src, route[0] in ("pickle", "deepcopy") and kname == "Conformer")], None)
@@ -1127,6 +1158,27 @@ def judge_derived(out, tag, kname, route, srcus, v, resu, ro_res, need):
     if need["charges"] and ro_res["charges"] != flat(v.charges):
         out.violations.append((f"{tag}:charges-differ", f"{rn}: partial charges of the result are not the sources' "
                                f"({summ([k[1] for k in (ro_res['charges'] or [])][:6])})"))
+    if hasattr(v, "frags") and ro_res["coords"] is not None:
+        # join: every kept atom keeps its place inside its fragment (rows matched by the identity of the source atom):
+        # fragment 1 is only translated, fragment 2 is moved rigidly
+        import numpy as np
+        R = np.asarray(resu.read.coords, dtype=float)
+        off = 0
+        for fi, (s, ap) in enumerate(v.frags):
+            keep = [i for i, a in enumerate(s.atoms) if a is not ap]
+            S = np.asarray(s.coords, dtype=float)[keep]
+            T = R[off:off + len(keep)]
+            off += len(keep)
+            if T.shape != S.shape:
+                out.violations.append((f"{tag}:coords-differ", f"{rn}: fragment {fi + 1} has {len(T)} coordinate rows for {len(S)} kept atoms"))
+                continue
+            dS = np.linalg.norm(S[:, None, :] - S[None, :, :], axis=-1)
+            dT = np.linalg.norm(T[:, None, :] - T[None, :, :], axis=-1)
+            ok = np.allclose(dS, dT, atol=1e-6, equal_nan=True)
+            if fi == 0 and ok and len(S):
+                ok = np.allclose(S - S[0], T - T[0], atol=1e-9, equal_nan=True)
+            if not ok:
+                out.violations.append((f"{tag}:coords-differ", f"{rn}: the coordinate rows of fragment {fi + 1} are not those of the atoms they were copied from"))
     if need["scal"] and ro_res["scal"] != v.scal_v:
         out.violations.append((f"{tag}:scal-differ", f"{rn}: name/charge/mult differ from the first source's"))
     if need["attrib"] and ro_res["attrib"] != [(leaf_key(k), leaf_key(x)) for k, x in v.attrib_d.items()]:
@@ -1151,10 +1203,15 @@ def plan(ctx):
     object is replaced by a random applicable one)."""
     reps = 1 if not ctx.thorough else 6
     quads = []
+    combos = [(a, b) for a in DESIGNATORS for b in DESIGNATORS]
     for kname, route in [(k, r) for k in SOURCES for r in single_routes(k)] + MULTI:
+        c = 0
         for side in ("copy", "source"):
             for mut in ALL_MUTS:
-                quads += [(kname, route, side, mut)] * reps
+                for _ in range(reps):
+                    # join: the attachment points are designated in every pair of AtomLike forms in turn
+                    quads.append((kname, route, side, mut, combos[c % len(combos)] if route[0] == "join" else None))
+                    c += 1
     return quads
 
 
@@ -1224,12 +1281,12 @@ def run(ctx, rep):
     cases, meta, found = [], [], False
     known_hit = set()
     lone_oracle(ml, random.Random(ctx.rng.randrange(1 << 30)), rep)
-    for kname, route, side, mut in plan(ctx):
+    for kname, route, side, mut, desig in plan(ctx):
         if (kname, route) not in tabulated:
             continue
         seed = ctx.rng.randrange(1 << 30)
         try:
-            co = run_case(ml, random.Random(seed), kname, route, side, want_mut=mut)
+            co = run_case(ml, random.Random(seed), kname, route, side, want_mut=mut, desig=desig)
         except Exception as e:   # noqa
             rep.count("case-error:" + type(e).__name__)
             rep.extra.setdefault("case_errors", []).append(f"{kname} {route_name(route)} seed={seed}: {type(e).__name__}: {e}"[:300])
@@ -1238,9 +1295,11 @@ def run(ctx, rep):
         rep.count("mutation:" + co.key[2])
         cases.append(co.term)
         meta.append((kname, route, side, seed))
+        if desig:
+            rep.count(f"join-designators:{desig[0]}/{desig[1]}")
         for sig, text in co.violations:
             found = True
-            rep.violate(sig, text, {"kname": kname, "route": list(route), "side": side, "seed": seed, "mut": mut})
+            rep.violate(sig, text, {"kname": kname, "route": list(route), "side": side, "seed": seed, "mut": mut, "desig": desig})
     if rep.extra.get("case_errors") and len(rep.extra["case_errors"]) > len(cases) // 10 + 3:
         vlib.broken_obligation(rep, "C06_cases", "too many cases could not be driven: " + "; ".join(rep.extra["case_errors"][:3]), found)
     bad = vlib.run_shards(ctx, rep, "c06", HEADER, "(check_case table)", cases, shard=60, case_type="case")
@@ -1277,5 +1336,6 @@ def replay(ctx, data):
         rep = vlib.Report(ctx)
         lone_oracle(ml, random.Random(1), rep)
         return [v for v in rep.violations if v.replay.get("lone") == data["lone"] and v.replay.get("route") == data["route"]]
-    co = run_case(ml, random.Random(data["seed"]), data["kname"], tuple(data["route"]), data["side"], want_mut=data.get("mut"), emit=False)
+    co = run_case(ml, random.Random(data["seed"]), data["kname"], tuple(data["route"]), data["side"], want_mut=data.get("mut"), emit=False,
+                  desig=tuple(data["desig"]) if data.get("desig") else None)
     return [vlib.Violation(s, t) for s, t in co.violations]
